@@ -127,6 +127,12 @@ def kahn_rules(rep, prog, f, S):
     rep.check("KAHN.children", okc, fwhere(f, fo["node"]), "visits the children of the emitted node in the current matrix", "inner loop runs over %s" % fmt(fo["iter"])[:100])
     sts = [s_ for s_ in S.select("store", root=q) if lf in s_.loops]
     oks = len(sts) == 1 and sts[0].idx == ("tuple", (popped, j)) and is_const(sts[0].value, 0) and sts[0].aug is None
+    if not sts:
+        # all out-edges of the emitted node removed at once (A[i, :] = 0), the children having been read from the matrix before
+        row = [s_ for s_ in S.select("store", root=q) if lw in s_.loops and lf not in s_.loops and s_.idx == ("tuple", (popped, FULL_))
+               and is_const(s_.value, 0) and s_.aug is None and s_.base == muA]
+        if len(row) == 1 and okc and row[0].order < min([t_.order for t_ in S.select("test", root=q) if lf in t_.loops] or [10**9]):
+            sts, oks = row, True
     rep.check("KAHN.remove-edge", oks, fwhere(f, sts[0].node if sts else None), "the edge (emitted node -> child) is removed from the working matrix", "the visited edge is not removed as A[i, j] = 0")
     if oks:
         updated = ("store", sts[0].base, sts[0].idx, sts[0].value, None)
